@@ -404,14 +404,22 @@ def scale_part(run, ck, specs):
             continue
         k0 = tpos[0]
         shape = spec["ops"][k0][1]
-        for axis in range(len(shape)):
-            if shape[axis] < 2:
+        for axis in list(range(len(shape))) + ["zeros"]:
+            if axis != "zeros" and shape[axis] < 2:
                 continue
             rng = np.random.default_rng([ck.seed, si, 7])
             data = [None if o[0] in "SI" else (rng.uniform(0.1, 0.9, o[1]) if o[0] in "PU" else rng.uniform(0.5, 2.0, o[1])).astype(np.float32) for o in spec["ops"]]
-            sh = [1] * len(shape)
-            sh[axis] = shape[axis]
-            data[k0] = (data[k0] + np.resize(OFFSETS, shape[axis]).reshape(sh)).astype(np.float32)
+            if axis == "zeros":
+                # exact zeros (a relu output, a zero-initialised weight) in every other position: guards such as log(x + eps) must not depend on the dtype
+                flat = data[k0].reshape(-1)
+                flat[::2] = 0.0
+                data[k0] = flat.reshape(shape)
+                axis, how = 0, "holding exact zeros at every other position"
+            else:
+                sh = [1] * len(shape)
+                sh[axis] = shape[axis]
+                data[k0] = (data[k0] + np.resize(OFFSETS, shape[axis]).reshape(sh)).astype(np.float32)
+                how = "shifted by %s along axis %d" % (np.resize(OFFSETS, shape[axis]).tolist(), axis)
             nfl = sum(d is not None for d in data)
             res = {}
             try:
@@ -434,8 +442,8 @@ def scale_part(run, ck, specs):
                 tol = 1e-3 * max(1.0, float(np.max(np.abs(b), initial=0.0)))
                 if a.shape != b.shape or not np.all(np.isfinite(a)) or not np.all(np.abs(a - b) <= tol):
                     what = "result" if j == 0 else "gradient %d" % (j - 1)
-                    run.violation("%s.float32_float64_agree" % spec["api"], "%s [%s]: with operand %d shifted by %s along axis %d the float32 %s is %s while the float64 one is %s" %
-                                  (spec["api"], spec["pattern"], k0, np.resize(OFFSETS, shape[axis]).tolist(), axis, what, a.tolist(), b.tolist()),
+                    run.violation("%s.float32_float64_agree" % spec["api"], "%s [%s]: with operand %d %s the float32 %s is %s while the float64 one is %s" %
+                                  (spec["api"], spec["pattern"], k0, how, what, a.tolist(), b.tolist()),
                                   key={"api": spec["api"], "clause": "float32_float64_agree at mixed scales", "what": what},
                                   replay={"api": spec["api"], "pattern": spec["pattern"], "operands": [None if d is None else d.tolist() for d in data], "axis": axis})
                     break
@@ -482,8 +490,108 @@ def upstream_shape_part(run, seed):
                                           key={"root": name, "upstream_shape": list(gs), "dtype": np.dtype(dt).name, "how": how}, replay={"root": name, "upstream_shape": list(gs)})
 
 
+# ------------------------------------------------------------------------------------------- deductive part (pyvc)
+def vc_targets():
+    """The part of "every .grad has exactly its tensor's shape and dtype" that is integer / object logic, for all ranks <= 4 and all extents:
+       * Tensor.matches_shape(t) is True exactly when the two shapes are equal (rank and every extent);
+       * the .grad setter stores the given tensor's array iff the shapes match and refuses otherwise (nothing stored);
+       * Tensor.zero_() installs, through that setter, a fresh array of zeros with the shape AND the dtype of the tensor's data (np.zeros_like under its contract).
+    Accumulation (`_grad += ...`, NumPy in-place addition keeps shape and dtype of the left operand) and the seeding of the root are executed natively below."""
+    import z3
+    from ..pyvc.engine import Executor, State, Obj, Opaque, Raised
+    from ..pyvc.harness import Target
+    TENSOR_PY, NAME = "synapgrad/tensor.py", "synapgrad.tensor.Tensor."
+    ts = []
+    for ra in range(0, 5):
+        for rb in range(0, 5):
+            if abs(ra - rb) > 1 and (ra, rb) not in ((0, 4), (4, 0)):
+                continue
+
+            def setup(ex, ra=ra, rb=rb):
+                s = State()
+                me, other = Obj("Tensor"), Obj("Tensor")
+                da = tuple(z3.Int("a%d" % i) for i in range(ra))
+                db = tuple(z3.Int("b%d" % i) for i in range(rb))
+                s.pc += [d >= 0 for d in da + db]
+                s.attrs(me)["shape"], s.attrs(other)["shape"] = da, db
+                return s, [me, other], {"da": da, "db": db}
+
+            def ens(ctx, s, out):
+                if isinstance(out, Raised):
+                    return [("completes", False)]
+                da, db = ctx["da"], ctx["db"]
+                equal = z3.BoolVal(False) if len(da) != len(db) else z3.And(*[x == y for x, y in zip(da, db)]) if da else z3.BoolVal(True)
+                v = out.value
+                return [("true_exactly_for_equal_shapes", (v if z3.is_expr(v) else z3.BoolVal(bool(v))) == equal)]
+            ts.append(Target(NAME + "matches_shape[ranks %d, %d]" % (ra, rb), TENSOR_PY, "Tensor.matches_shape", setup, ens, key={"ranks": [ra, rb]}))
+
+    def setup_set(ex):
+        s = State()
+        me, g, arr = Obj("Tensor"), Obj("Tensor"), Obj("ndarray")
+        old = Opaque("old_grad")
+        s.attrs(me).update(_grad=old, shape=Opaque("shape"))
+        s.attrs(g).update(data=arr, shape=Opaque("gshape"))
+        m = z3.Bool("shapes_match")
+        ex.models["Tensor.matches_shape"] = lambda ex_, st, args, kw: m
+        return s, [me, g], {"me": me, "arr": arr, "old": old, "m": m}
+
+    def ens_set(ctx, s, out):
+        a = s.attrs(ctx["me"])
+        if isinstance(out, Raised):
+            return [("refuses_only_a_gradient_of_another_shape", z3.Not(ctx["m"])), ("nothing_stored_when_refused", a["_grad"] is ctx["old"])]
+        return [("accepts_only_a_gradient_of_the_tensors_shape", ctx["m"]), ("stores_the_given_array", a["_grad"] is ctx["arr"])]
+    ts.append(Target(NAME + "grad[setter]", TENSOR_PY, "Tensor.grad@setter", setup_set, ens_set, executor=lambda: Executor(havoc={"RuntimeError"})))
+
+    def setup_zero(ex):
+        s = State()
+        me, data = Obj("Tensor"), Obj("ndarray")
+        shp, dt = Opaque("shape"), Opaque("dtype")
+        s.attrs(data).update(shape=shp, dtype=dt, values="data")
+        s.attrs(me).update(data=data, device=Opaque("device"), _grad=Opaque("old_grad"))
+
+        def zeros_like(ex_, st, args, kw):
+            src = st.attrs(args[0])
+            z = Obj("ndarray")
+            st.attrs(z).update(shape=src["shape"], dtype=kw.get("dtype", src["dtype"]) if kw.get("dtype") is not None else src["dtype"], values="zeros")
+            return z
+        ex.models["np.zeros_like"] = zeros_like
+
+        def tensor_ctor(ex_, st, args, kw):          # contract of Tensor(array): the array is stored as it is (C07 discharges the constructor)
+            t = Obj("Tensor")
+            arr = args[0]
+            if kw.get("dtype") is not None:
+                n = Obj("ndarray")
+                st.attrs(n).update(st.attrs(arr))
+                st.attrs(n)["dtype"] = kw["dtype"]
+                arr = n
+            st.attrs(t).update(data=arr)
+            return t
+        ex.models["Tensor"] = tensor_ctor
+
+        def grad_setter(ex_, st, obj, value):       # contract of the setter proved above, with the callee's answer for equal shapes
+            va, oa = st.attrs(st.attrs(value)["data"]), st.attrs(st.attrs(obj)["data"])
+            if va["shape"] is oa["shape"]:
+                st.attrs(obj)["_grad"] = st.attrs(value)["data"]
+                return None
+            return Raised("RuntimeError")
+        ex.setattr_models[("Tensor", "grad")] = grad_setter
+        return s, [me], {"me": me, "shape": shp, "dtype": dt, "data": data}
+
+    def ens_zero(ctx, s, out):
+        if isinstance(out, Raised):
+            return [("completes", False)]
+        g = s.attrs(ctx["me"]).get("_grad")
+        if not isinstance(g, Obj) or g.cls != "ndarray":
+            return [("installs_an_array_as_gradient_buffer", False)]
+        ga = s.attrs(g)
+        return [("buffer_has_the_shape_of_the_data", ga["shape"] is ctx["shape"]), ("buffer_has_the_dtype_of_the_data", ga["dtype"] is ctx["dtype"]),
+                ("buffer_is_all_zero", ga["values"] == "zeros"), ("buffer_is_not_the_data_array", g is not ctx["data"]), ("data_untouched", s.attrs(ctx["me"])["data"] is ctx["data"])]
+    ts.append(Target(NAME + "zero_", TENSOR_PY, "Tensor.zero_", setup_zero, ens_zero, executor=lambda: Executor()))
+    return ts
+
+
 def main(tier="quick", seed=0, procs=None, only=None):
-    run = Run("C10", tier, seed, "exploration")
+    run = Run("C10", tier, seed, "other")
     run.assume("bounded stand-in: dtype/shape contracts are executed natively; NumPy's promotion rules are executed, not axiomatised",
                "dtype and shape propagation do not depend on operand values: one seeded data point (values in [0.5,2), probabilities in (0.1,0.9)) per configuration",
                "layers that create float32 parameters without a dtype argument (Linear, Conv1d, Conv2d, BatchNorm default) are in scope for float32 input only; "
@@ -517,6 +625,12 @@ def main(tier="quick", seed=0, procs=None, only=None):
         run.extra["failure_classes"] = ck.C.flush()
         if only:
             run.extra["filtered_only"] = only
+    try:
+        from ..pyvc.harness import TargetCase
+        from ..symreal.pool import run_catalogue
+        run_catalogue(run, [TargetCase(t) for t in vc_targets()], seed=seed, procs=procs)
+    except Exception as e:
+        run.error("deductive part failed", e)
     guarded(run, "stateful layer histories", layer_histories, run, seed)
     guarded(run, "gradient-buffer histories", grad_histories, run, seed, tier)
     guarded(run, "upstream gradients of broadcastable shapes", upstream_shape_part, run, seed)
